@@ -49,3 +49,9 @@ def run(ctx):
 
 def replay(ctx, case):
     {"update": _u, "regen": _r, "index": _i}[case.get("family", "update")][2](ctx, case)
+
+
+def probes(ctx):
+    from vpbt import gfi_probes
+
+    gfi_probes.run_probes(ctx, ['mask_true_to_false_backward', 'switch_backward_is_branch0', 'scan_regenerate_backward'])
